@@ -23,7 +23,7 @@ pub fn params(tier: Tier) -> GenParams {
 pub fn run(ctx: &Ctx) -> PropReport {
     let mut rep = PropReport::new("C01", "exploration");
     let p = params(ctx.tier);
-    let cases = ctx.tier.pick(1600, 6000);
+    let cases = ctx.tier.pick(6000, 24000);
     let rule = "random 2-4 peer topologies x 1-2 local players x 0-2 spectators, windows 1..=12, delays 0..=6, sparse on/off, both predictors, both input types, jittered schedules with uneven speeds/pauses/outages, per-link loss/dup/latency; oracle: inputs of every confirmed frame == reference model of the delayed true input stream, final states == serial replay on every peer; non-trivial = >=1 rollback AND >=150 confirmed frames (input ring wrapped) AND (loss profile => >=1 input packet actually dropped) AND no disconnect";
     rep.parts.push(run_random(ctx, "p2p", rule, || scenario(&p), cases, eval));
     rep.floors.push(("p2p".into(), 0.3));
